@@ -629,6 +629,54 @@ def _tg_roundtrip(case):
     return Info(nontrivial=nontriv, classes=cl)
 
 
+@st.composite
+def _tg_unordered_case(draw, tier):
+    p = draw(st.integers(0, 4))
+    point = draw(st.booleans())
+    entries, _ = draw(_tg_entries(p, 6 if tier == "thorough" else 5, points="exact" if point else False, min_n=2))
+    # distinct printed starts (coincident points are the business of textgrid_roundtrip)
+    starts = [tx.dec_round(e[1], p) for e in entries]
+    if len(set(starts)) != len(starts):
+        entries = [e for i, e in enumerate(entries) if starts[i] not in starts[:i]]
+    span = None
+    if not point and draw(st.booleans()):
+        # an interval that spans the ones listed after it (a phrase over its words): it alone reaches the tier's end
+        span = draw(st.integers(0, len(entries) - 1))
+        entries[span][2] = max(e[2] for e in entries) + draw(st.sampled_from([0.0, 1.0, 2.5]))
+    order = draw(st.permutations(list(range(len(entries)))))
+    return {"p": p, "point": point, "entries": [entries[i] for i in order], "span": span is not None}
+
+
+@subcheck("C11", "textgrid_unordered", lambda tier: _tg_unordered_case(tier), quick=300, thorough=4000,
+          doc="2..5 entries listed in any order, interval tiers optionally with one interval spanning the later ones: read_textgrid("
+              "write_textgrid(x)) is x ordered by start time (rounded to p decimals) and the tier's bounds are the smallest start and "
+              "the largest end of the whole transcript, wherever those entries stand in the list",
+          required_classes=["first_listed_is_not_earliest", "last_listed_is_not_latest_end", "spanning_interval"])
+def _tg_unordered(case):
+    data = _data()
+    p, entries = case["p"], case["entries"]
+    if len(entries) < 2:
+        raise Reject("fewer than two entries with distinct printed starts")
+    f = io.StringIO()
+    data.write_textgrid([tuple(e) for e in entries], f, precision=p, point_tier=case["point"])
+    f.seek(0)
+    got, xmin, xmax = data.read_textgrid(f)
+    ps = [tx.dec_round(e[1], p) for e in entries]
+    pe = [tx.dec_round(e[1] if case["point"] else e[2], p) for e in entries]
+    exp = [[entries[i][0], float(ps[i]), float(pe[i])] for i in sorted(range(len(entries)), key=lambda i: ps[i])]
+    require(tx.plain(got) == exp, "read_textgrid(write_textgrid(x)) != x ordered by start (times rounded to %d decimals)" % p, tx.plain(got), exp)
+    require(xmin == float(min(ps)) and xmax == float(max(pe)), "tier bounds are not (smallest start, largest end) of the transcript",
+            [xmin, xmax], [float(min(ps)), float(max(pe))])
+    cl = ["point_tier" if case["point"] else "interval_tier"]
+    if ps[0] != min(ps):
+        cl.append("first_listed_is_not_earliest")
+    if pe[-1] != max(pe):
+        cl.append("last_listed_is_not_latest_end")
+    if case["span"]:
+        cl.append("spanning_interval")
+    return Info(nontrivial=len(cl) > 1, classes=cl)
+
+
 @subcheck("C11", "textgrid_bad_bounds", lambda tier: _tg_case(tier, bad_bounds=True), quick=100, thorough=1000,
           doc="start_time after the first interval / end_time before the last: write_textgrid raises ValueError as documented "
               "in its messages; an empty transcript raises ValueError")
